@@ -152,7 +152,18 @@ func effectsOfFuncs(fns []*ssa.Function) *Effects {
 	return e
 }
 
-func effectsOfFunc(fn *ssa.Function, e *Effects) {
+// effectsOfLive computes effects over live blocks only (live(f)==nil means all blocks).
+func effectsOfLive(fns map[*ssa.Function]*ssa.Function, live func(*ssa.Function) map[*ssa.BasicBlock]bool) *Effects {
+	e := &Effects{Reads: map[*types.Var]Access{}, Writes: map[*types.Var]Access{}}
+	for fn := range fns {
+		effectsOfFuncLive(fn, e, live(fn))
+	}
+	return e
+}
+
+func effectsOfFunc(fn *ssa.Function, e *Effects) { effectsOfFuncLive(fn, e, nil) }
+
+func effectsOfFuncLive(fn *ssa.Function, e *Effects, live map[*ssa.BasicBlock]bool) {
 	rec := func(m map[*types.Var]Access, v *types.Var, pos token.Pos) {
 		if v == nil {
 			return
@@ -166,6 +177,9 @@ func effectsOfFunc(fn *ssa.Function, e *Effects) {
 		m[v] = Access{fn, pos}
 	}
 	for _, b := range fn.Blocks {
+		if live != nil && !live[b] {
+			continue
+		}
 		for _, ins := range b.Instrs {
 			switch x := ins.(type) {
 			case *ssa.Field:
